@@ -71,7 +71,30 @@ SPECIAL_BITS = [0x0, 0x8000000000000000, 0x1, 0x8000000000000001, 0x000fffffffff
                 0x3ff0000000000000, 0xbff0000000000000, 0x3fe0000000000000, 0x4000000000000000, 0x3ff0000000000001,
                 0x3fefffffffffffff, 0x4340000000000000, 0x433fffffffffffff, 0x3fd0000000000000, 0x3ff8000000000000]
 
+# literals harvested from definitions whose bridge broke (check.py fills this): operands are drawn at and
+# around them so that a changed threshold / constant / table entry is actually exercised by the search
+POOL = []
+
+def from_pool(r: Rng):
+    x = r.choice(POOL)
+    k = r.below(6)
+    if k == 0:
+        return x
+    if k == 1:
+        return -x
+    if k == 2:
+        return math.nextafter(x, math.inf)
+    if k == 3:
+        return math.nextafter(x, -math.inf)
+    if k == 4:
+        return x * r.choice([0.5, 2.0, 1.5, 0.75])
+    return x + ulp(x) * r.rng(-8, 8) if isfin(x) else x
+
 def any_f64(r: Rng, finite=False) -> float:
+    if POOL and r.below(4) == 0:
+        x = from_pool(r)
+        if isfin(x) or not finite:
+            return x
     c = r.below(10)
     if c == 0:
         x = fbits(r.choice(SPECIAL_BITS))
@@ -118,6 +141,11 @@ def valid_tf(r: Rng, emin=-1000, emax=1000, allow_zero=True):
         return (r.choice([0.0, -0.0]), r.choice([0.0, -0.0]))
     e = r.rng(emin, emax - 1)
     hi = mant_exp(r, e)
+    if POOL and r.below(4) == 0:
+        x = from_pool(r)
+        if isfin(x) and x != 0 and Fraction(2) ** emin <= abs(Fraction(x)) < Fraction(2) ** emax:
+            hi = x
+            e = math.frexp(x)[1] - 1
     u = ulp(hi)
     if c <= 2:
         lo = r.choice([0.0, -0.0])
@@ -137,6 +165,17 @@ def valid_tf(r: Rng, emin=-1000, emax=1000, allow_zero=True):
         lo = fbits(r.rng(1, 4)) * r.choice([1, -1])      # tiny subnormal low word
     else:
         lo = mant_exp(r, max(-1074, e - 53 - r.rng(0, 3)))
+    if POOL and r.below(6) == 0:
+        # a harvested literal (or a neighbour) as the LOW word, under a high word far enough above it
+        x = from_pool(r)
+        if isfin(x) and x != 0:
+            ex = math.frexp(x)[1] - 1
+            eh = ex + 53 + r.below(3)
+            if emin <= eh < emax:
+                hi = mant_exp(r, eh)
+                if r.below(2):
+                    hi = math.ldexp(float(r.rng(2**52, 2**53 - 1)), eh - 52) * r.choice([1, -1])
+                lo = x
     # normalise with 2Sum so that the pair is valid whatever was picked
     s, t = two_sum(hi, lo)
     if not is_valid(s, t):
